@@ -165,7 +165,7 @@ func (vc *VC) strLit(s string) Term {
 	if n, ok := vc.strLits[s]; ok {
 		return n
 	}
-	n := fmt.Sprintf("str!%d", len(vc.strLits))
+	n := fmt.Sprintf("lit!%d", len(vc.strLits))
 	vc.strLits[s] = n
 	return n
 }
@@ -329,6 +329,8 @@ func (vc *VC) initFacts(key, name string) {
 		vc.decls = append(vc.decls, fmt.Sprintf("(assert (forall ((m Int)) (! (>= (select %s m) 0) :pattern ((select %s m)))))", name, name))
 	case strings.HasPrefix(key, "g.calls."):
 		vc.decls = append(vc.decls, fmt.Sprintf("(assert (= %s 0))", name))
+	case strings.HasPrefix(key, "g.all."):
+		vc.decls = append(vc.decls, fmt.Sprintf("(assert %s)", name))
 	}
 }
 
@@ -609,7 +611,7 @@ func (vc *VC) wellTypedAt(st *State, t types.Type, s []Term, depth int) Term {
 	case *types.Map:
 		return tOr(tEq(s[0], "0"), tAnd(tLt("0", s[0]), vc.isAlloc(st, s[0]), tEq(sx("dtype", s[0]), tInt(int64(vc.p.typeID(t))))))
 	case *types.Interface, *types.TypeParam:
-		return tAnd(tLe("0", s[0]), tOr(tNot(tEq(s[0], "0")), tAnd(tEq(s[1], "0"), tEq(s[2], "0"))), tOr(tEq(s[1], "0"), vc.isAlloc(st, s[1])))
+		return tAnd(tLe("0", s[0]), tOr(tNot(tEq(s[0], "0")), tAnd(tEq(s[1], "0"), tEq(s[2], "0"))))
 	case *types.Struct:
 		if depth > 3 {
 			return tTrue
